@@ -600,15 +600,15 @@ def run(ctx):
         base += len(ch)
     mism = sorted(set(mism))
 
-    # ---- the open finding F12: a cyclic struct schema (only constructible by hand) makes deserialization recurse forever
+    # ---- the open finding F26cyc: a cyclic struct schema (only constructible by hand) makes deserialization recurse forever
     f12 = None
     if not ctx.replay_in:
         p = subprocess.run([binp], input=b"de 1:1=S1. - 1 00\n", stdout=subprocess.PIPE, stderr=subprocess.PIPE, timeout=120)
         aborted = p.returncode < 0 or b"overflowed its stack" in p.stderr
         f12 = {"returncode": p.returncode, "stdout": p.stdout.decode("utf-8", "replace")[:200], "stack_overflow": aborted}
-        known = [f for f in ctx.known_findings() if f.get("id") == "F12"]
+        known = [f for f in ctx.known_findings() if f.get("id") == "F26cyc"]
         if aborted and known:
-            ctx.report_known(known[0], "F12 deserialize_struct overflows the stack on a cyclic struct schema (struct s1 { f1 struct s1 }; not producible by the compiler)")
+            ctx.report_known(known[0], "F26cyc deserialize_struct overflows the stack on a cyclic struct schema (struct s1 { f1 struct s1 }; not producible by the compiler)")
         elif aborted:
             ctx.violation("deserialize_struct aborts the process (stack overflow) on a cyclic struct schema",
                           {"case": {"op": "de", "defs": {"1": [[1, ["S", 1]]]}, "enums": {}, "name": 1, "bytes_hex": "00", "kind": "cyclic_schema"},
@@ -649,7 +649,7 @@ def run(ctx):
         "samples": [{"line": lines[i], "impl": impl[i]} for i in range(min(3, len(lines)))],
     })
     ctx.assumptions += [
-        "struct schemas are acyclic (the compiler rejects recursive struct definitions: 'cycle found'); a hand-built cyclic Machine is finding F12",
+        "struct schemas are acyclic (the compiler rejects recursive struct definitions: 'cycle found'); a hand-built cyclic Machine is finding F26cyc",
         "Identifier is an opaque totally ordered key (modelled as N; the harness uses fixed-width names so that both orders agree)",
         "BaseId is 32 bytes, Text is NUL-free UTF-8 (type invariants of aranya-id / aranya-policy-text, C32)",
     ]
